@@ -216,7 +216,7 @@ pub open spec fn fr_ns(a: World, b: World) -> bool {
 pub fn remove_file(p: &Path, Tracked(w): Tracked<&mut World>) -> (r: std::result::Result<(), io::Error>)
     ensures fr_ns(*old(w), *final(w)), final(w).eexist == old(w).eexist,
         forall|k: PathKey| #[trigger] old(w).paths.contains_key(k) && old(w).paths.contains_key(p.key()) && old(w).paths[k].entry == old(w).paths[p.key()].entry
-            ==> old(w).paths[k].inode == old(w).paths[p.key()].inode,
+            ==> old(w).paths[k].inode == old(w).paths[p.key()].inode && old(w).paths[k].reach == old(w).paths[p.key()].reach && old(w).paths[k].kind == old(w).paths[p.key()].kind,
         match r {
             Ok(_) => {
                 &&& final(w).faults == old(w).faults && old(w).paths.contains_key(p.key())
